@@ -87,9 +87,9 @@ def arr(da, *dims):
 
 
 def spec_rtol(spec):
-    """single precision input data are processed in single precision by numpy / LAPACK: the comparison of such a
-    scheme is made at single precision accuracy (condition numbers of the generated matrices are below 200)"""
-    return 2e-5 if any(d.get("dtype") == "float32" for d in spec["datasets"]) else RTOL
+    """one tolerance for every storage dtype: the provider works on float64 copies (fix 0f99e6f), so data stored as
+    float32 / integers give the same numbers as the same values stored as float64"""
+    return RTOL
 
 
 def close_arr(a, b, rtol=None):
